@@ -982,6 +982,40 @@ def field_eqs(desc):
 def gen_C13(rng, tier):
     L = []
     n = 400 if tier == "thorough" else 90
+    # quotient rings made in mid-history from an ideal OBJECT, whatever has been asked of / done to it before
+    for _ in range(200 if tier == "thorough" else 50):
+        desc = field_desc(*rng.choice(SMALL_Q[:9]))
+        h = H(rng, desc, bspec=bspec(rng))
+        gs = small_ideal(h, rng)
+        i0 = h.newi(); h.ops.append("%s=ideal@0 %s" % (i0, " ".join(gs)))
+        cur = i0
+        for _ in range(rng.randrange(0, 4)):
+            k = rng.random()
+            if k < 0.5:
+                h.ops.append("%s %s" % (rng.choice(["isgroebner", "isminimal", "isreduced"]), cur))
+            elif k < 0.65:
+                h.ops.append("%s %s" % (rng.choice(["minimize", "reducebasis"]), cur))
+            elif k < 0.85:
+                j = h.newi(); h.ops.append("%s=groebner %s" % (j, cur)); cur = rng.choice([cur, j])
+            else:
+                j = h.newi(); h.ops.append("%s=icopy %s" % (j, cur)); cur = rng.choice([cur, j])
+        h.ops.append("quotient %s" % cur)
+        h.ops.append("obs %s" % cur)
+        embedded = []
+        for g in gs[:2]:
+            r = h.newb(); h.ops.append("%s=embed@3 %s:1" % (r, g)); h.ops.append("obs %s" % r)     # members become zero
+        for _ in range(rng.randrange(2, 6)):
+            b0 = h.bpoly(nterms=rng.choice([1, 2, 4]), box=6, ring=0)
+            r = h.newb(); h.ops.append("%s=embed@3 %s:1" % (r, b0)); embedded.append(r)
+            if rng.random() < 0.3:
+                u0 = h.newb(); h.ops.append("%s=embed@3 %s:0" % (u0, b0))
+                r2 = h.newb(); h.ops.append("%s=embed@3 %s:1" % (r2, u0)); h.ops.append("eq %s %s" % (r, r2))
+        # two polynomials that differ by a member of the ideal have the same normal form
+        b1 = h.bpoly(nterms=2, box=4, ring=0)
+        b2 = h.newb(); h.ops.append("%s=plus %s %s" % (b2, b1, gs[0]))
+        r1 = h.newb(); h.ops.append("%s=embed@3 %s:1" % (r1, b1)); r2 = h.newb(); h.ops.append("%s=embed@3 %s:1" % (r2, b2))
+        h.ops.append("eq %s %s" % (r1, r2))
+        L.append(h.line())
     for _ in range(n):
         desc = field_desc(*rng.choice(SMALL_Q[:9]))
         # ideal generators as literal maps in the header
@@ -1367,6 +1401,25 @@ def gen_C16(rng, tier):
                         h.ops.append("obs %s" % a)
             if desc_card(desc) <= 300 and rng.random() < 0.04:
                 h.ops.append("escr@0")      # Elements(): the caller overwrites what it was given
+        L.append(h.line())
+    # GroebnerBasis() of an ideal that already is (flagged as) a Groebner basis returns a NEW object: transforming the
+    # result in place must not reach the first one (non-monic generators, bases that are not minimal)
+    for _ in range(150 if tier == "thorough" else 40):
+        desc = field_desc(*rng.choice(SMALL_Q[1:9]))
+        h = H(rng, desc, bspec=bspec(rng), snap=True)
+        gs = small_ideal(h, rng, ngens=rng.choice([1, 2, 2, 3]))
+        c = h.elem(rand_elem(desc, rng, special=0))
+        h.ops.append("setscale %s %s" % (gs[0], c))             # a leading coefficient other than one
+        i0 = h.newi(); h.ops.append("%s=ideal@0 %s" % (i0, " ".join(gs)))
+        if rng.random() < 0.4:
+            h.ops.append("isgroebner %s" % i0)
+        i1 = h.newi(); h.ops.append("%s=groebner %s" % (i1, i0))
+        i2 = h.newi(); h.ops.append("%s=groebner %s" % (i2, i1))
+        i3 = h.newi(); h.ops.append("%s=groebner %s" % (i3, i0))
+        for tgt in rng.sample([i2, i3, i1], 2):
+            h.ops.append("%s %s" % (rng.choice(["minimize", "reducebasis", "isminimal", "isreduced"]), tgt))
+            for o in (i0, i1, i2, i3):
+                h.ops.append("obs %s" % o)
         L.append(h.line())
     # shrink, then grow again in place: whatever an in-place zeroing leaves behind in the object must not come back
     for _ in range(300 if tier == "thorough" else 60):
@@ -1763,6 +1816,15 @@ def gen_C18(rng, tier):
                     h.ops.append("%s=interp@0 %s %s" % (h.newu(), ",".join(pts), ",".join([a, b, a])))
             if desc_card(desc) <= 300 and rng.random() < 0.12:
                 h.ops.append("escr@0")      # Elements(), then the caller overwrites everything it was given
+        L.append(h.line())
+    # every element of a field with its table against a twin field object without table (x*g, x^-1, x*1)
+    for (p, k, ext) in ([(2, 16, True), (17, 4, False), (5, 7, False), (257, 2, False), (41, 3, False), (3, 2, False), (251, 1, False), (1021, 1, False), (2, 3, True), (7, 1, True)]
+                        if tier == "thorough" else [(17, 4, False), (2, 16, True), (3, 3, False), (251, 1, False)]):
+        desc = field_desc(p, k, force_ext=ext)
+        h = H(rng, desc, snap=False)
+        h.ops.append("tcheck@0")
+        h.ops.append("tables@0 1 1 -")
+        h.ops.append("tcheck@0")
         L.append(h.line())
     # extension fields whose discrete logarithms do not fit 16 bits (and one that just does): operands from the
     # top of the group, tables requested in mid-computation
